@@ -6,6 +6,8 @@
 import PonyVerif.Lemmas.CascadeDel
 import PonyVerif.Lemmas.CascadeFuel
 import PonyVerif.Lemmas.CascadeUndo
+import PonyVerif.Lemmas.CascadeRel
+import PonyVerif.Props.C12
 namespace PonyVerif.Props.C15
 open PonyVerif.Model.Cascade
 
@@ -361,6 +363,68 @@ theorem C15_no_dangling (sch : Schema) (ct : ClassTable) (hwf : CascWF sch) (gua
   | refl => exact h0
   | session s ops _ _ hI hg _ => exact commit_fk (runOps_inv sch ct hwf guard ops s hg hI)
   | bulk rows _ hb ih => exact C15_bulk_no_dangling sch _ _ rows ih hb
+
+/-! ## The other session calls: bridge to the session model of C12 -/
+
+section bridge
+open PonyVerif.Model PonyVerif.Model.Cascade.Bridge
+
+/-- a store of the C12 session model that satisfies C12's invariants (both ends agree, links typed, no live object holds a
+    deleted one) is, read as a store of the deletion model, a consistent session in the sense of this file -/
+theorem sinv_of_rel (sch : Rel.Schema) (s : Rel.Store) (hI : Rel.Inv sch s) (hT : Rel.Typed sch s) (hL : Rel.LiveAll sch s) :
+    SInv (ofSchema sch) (ofSchema sch).classTable (ofStore s) := by
+  have hlt : ∀ p b q, p < s.n → Rel.hasB sch s p b q = true → q < s.n := by
+    intro p b q hp hh
+    unfold Rel.hasB at hh
+    cases hb : Rel.Schema.side sch b with
+    | none => simp [hb] at hh
+    | some d =>
+      simp only [hb] at hh
+      by_cases hc : d.isColl = true
+      · simp only [hc, if_true] at hh; exact hI.range.2 p b q hp hh
+      · simp only [hc] at hh
+        exact hI.range.1 p b q hp (by simpa using hh)
+  refine ⟨⟨?_, ?_⟩, ?_, ?_⟩
+  · intro p b q hh
+    rw [hasB_of] at hh
+    simp only [Bool.and_eq_true, decide_eq_true_eq] at hh
+    exact hlt p _ q hh.1 hh.2
+  · intro p b q hh
+    rw [hasB_of] at hh
+    simp only [Bool.and_eq_true, decide_eq_true_eq] at hh
+    exact mem_attrsOf_of sch b _ (hT p (toAttr b) q hh.1 hh.2)
+  · intro p b q hp hh
+    rw [hasB_of] at hh ⊢
+    simp only [ofStore, Bool.and_eq_true, decide_eq_true_eq] at hp hh ⊢
+    have hm := hI.agree p (toAttr b) q hh.1 hp.2 hh.2
+    exact ⟨hlt p _ q hh.1 hh.2, by rw [rev_of]; exact hm⟩
+  · intro p b q hp hh
+    rw [hasB_of] at hh
+    simp only [ofStore, Bool.and_eq_true, decide_eq_true_eq] at hp hh ⊢
+    exact ⟨hlt p _ q hh.1 hh.2, hL p (toAttr b) q hh.1 hp.2 hh.2⟩
+
+/-- The other session calls, without an invariant hypothesis: after ANY history of calls of the C12 session model from the empty
+    session — constructor calls, assignment of references and collections, add, remove, clear, delete with cascade, successful
+    or failing — all of whose calls satisfy C12's guard (a removal, or a call whose operands are alive afterwards), the session
+    read as a store of this model is consistent, so a commit leaves no dangling reference (every reference attribute taken as a
+    foreign-key column) and every delete theorem of this file applies to it. -/
+theorem C15_no_dangling_c12 (sch : Rel.Schema) (ops : List Rel.Op) (h : PonyVerif.Props.C12.AllOK sch Rel.Store.empty ops) :
+    SInv (ofSchema sch) (ofSchema sch).classTable (ofStore (Rel.run sch Rel.Store.empty ops)) ∧
+    InvFk (ofSchema sch) (commit (ofSchema sch) (ofStore (Rel.run sch Rel.Store.empty ops))) := by
+  have hS := sinv_of_rel sch _ (PonyVerif.Props.C12.C12_reachable sch ops) (PonyVerif.Props.C12.C12_typed_reachable sch ops)
+    (PonyVerif.Props.C12.C12_no_dangling_reachable_all sch ops h)
+  exact ⟨hS, commit_fk hS⟩
+
+/-- hypotheses met by a history with constructor calls, links on all kinds of relationship, a remove and a cascade delete; after it
+    the delete of the remaining object goes through in the deletion model as well -/
+example : PonyVerif.Props.C12.AllOK PonyVerif.Props.C12.exSchema Rel.Store.empty
+      (PonyVerif.Props.C12.exOps ++ [.remove 0 ⟨1, false⟩ [2], .delete 0]) ∧
+    (ofStore (Rel.run PonyVerif.Props.C12.exSchema Rel.Store.empty PonyVerif.Props.C12.exOps)).alive 1 = true ∧
+    hasB (ofSchema PonyVerif.Props.C12.exSchema) (ofStore (Rel.run PonyVerif.Props.C12.exSchema Rel.Store.empty PonyVerif.Props.C12.exOps)) 0 ⟨0, false⟩ 1 = true := by
+  refine ⟨by decide, by decide, ?_⟩
+  rw [hasB_of]; decide
+
+end bridge
 
 /-! ## C15_on_delete_matches — `generate_mapping`'s ON DELETE clause vs the in-memory rule, every relationship kind -/
 
